@@ -95,6 +95,12 @@ PROGRAMS = {
         ["delay", "g", 20], ["add_eom", "g", 16, 0.0],
         ["modify_eom", "g", 1.0, 0.0, 3.0, {"correct_phase_drift": True}], ["add_eom", "g", 16, 1.0],
         ["disable_eom", "g", {"correct_phase_drift": True}], ["add", "g", ["cp", 52, 1.0, 0.0, 0.5]]]),
+    # EOM pulses with 4, 5 and 6 POSITIONAL arguments (post_phase_shift, protocol, correct_phase_drift given by position)
+    "eom_positional": dict(device="virt", prog=[
+        ["declare", "g", "ryd_glob"], ["add", "g", ["cp", 100, 1.0, 0.0, 0.0]], ["enable_eom", "g", 2.0, 0.0, -1.0],
+        ["add_eom_pos", "g", 40, 0.25, 0.5], ["add_eom_pos", "g", 40, 0.5, 0.0, "no-delay"], ["delay", "g", 20],
+        ["add_eom_pos", "g", 16, 0.0, 0.25, "wait-for-all", True], ["add_eom_pos", "g", 16, 0.0, 0.0, "min-delay", False],
+        ["disable_eom", "g"]]),
     "eom_defaults": dict(device="virt", prog=[
         ["declare", "g", "ryd_glob"],
         ["enable_eom", "g", 2.0, 0.0], ["add_eom", "g", 40, "PH:p1"], ["modify_eom", "g", 1.0, 0.0], ["disable_eom", "g"]]),
